@@ -310,8 +310,10 @@ class Sccp:
     `call_model(call, argvals) -> value or None` models calls returning constants.
     """
 
-    def __init__(self, fn, call_model=None, stop_blocks=(), removed_edges=(), field_model=None):
+    def __init__(self, fn, call_model=None, stop_blocks=(), removed_edges=(), field_model=None, stmt_values=None):
         self.fn = fn
+        # stmt_values {(block, statement index): value}: the value one particular assignment is assumed to produce
+        self.stmt_values = stmt_values or {}
         # field_model(owner, field) -> abstract value or None: the value of every read whose last projection is that field
         # (a configuration flag fixed for one row of a table), wherever the read sits — callee, closure or the function itself
         self.field_model = field_model
@@ -492,10 +494,10 @@ class Sccp:
     def _transfer(self, b, env):
         env = dict(env)
         blk = self.fn.blocks[b]
-        for st in blk["stmts"]:
+        for j_, st in enumerate(blk["stmts"]):
             if st["k"] == "assign":
                 key = place_key(st["place"])
-                val = self._rvalue(env, st["rv"])
+                val = self.stmt_values[(b, j_)] if (b, j_) in self.stmt_values else self._rvalue(env, st["rv"])
                 if st["rv"]["k"] in ("ref", "rawptr") and st["rv"].get("mut", True):
                     # value may change behind our back: forget the borrowed place
                     self._write(env, place_key(st["rv"]["place"]), None)
@@ -681,6 +683,47 @@ def guarded(fn, site_bbs, switches, polarity=True):
         removed.add(te if polarity else fe)
     r = C.reach(fn, [0], removed_edges=removed)
     return [s for s in site_bbs if s in r]
+
+
+CMP_OPS = ("Eq", "Ne", "Lt", "Le", "Gt", "Ge")
+_FLIP = {"Lt": "Gt", "Gt": "Lt", "Le": "Ge", "Ge": "Le", "Eq": "Eq", "Ne": "Ne"}
+
+
+def cmp_stmts(fn, eb=None):
+    """Every comparison the function computes, wherever its answer goes (a switch, a named flag, one leg of `&&`):
+    [(bb, stmt index, op, lhs expr, rhs expr)]."""
+    eb = eb or ExprBuilder(fn)
+    out = []
+    for bb, j, st in fn.stmts():
+        if st["k"] == "assign" and st["rv"]["k"] == "bin" and st["rv"].get("op") in CMP_OPS and not fn.blocks[bb]["cleanup"]:
+            out.append((bb, j, st["rv"]["op"], eb.operand(st["rv"]["a"]), eb.operand(st["rv"]["b"])))
+    return out
+
+
+def cmp_truth(op, lhs_is_x, relation):
+    """The value (0/1) a comparison `x op y` (lhs_is_x) or `y op x` takes when `x relation y` holds, or None when the
+    comparison does not decide that relation. relation ∈ {"Ge", "Gt", "Lt", "Le"} read as x REL y."""
+    if not lhs_is_x:
+        op = _FLIP[op]
+    table = {("Ge", "Ge"): 1, ("Lt", "Ge"): 0, ("Gt", "Gt"): 1, ("Le", "Gt"): 0,
+             ("Lt", "Lt"): 1, ("Ge", "Lt"): 0, ("Le", "Le"): 1, ("Gt", "Le"): 0}
+    return table.get((op, relation))
+
+
+def excluded_by_test(fn, tests, site_bbs, call_model=None):
+    """tests: [(bb, stmt index, value)]. Is there a test such that (a) no site is reached when the comparison at (bb, index)
+    yields `value`, and (b) no site is reached without evaluating it? Decided by constant propagation, so a named flag or
+    an `&&` chain between the comparison and the branch makes no difference. Returns the tests that qualify."""
+    out = []
+    for bb, j, val in tests:
+        sx = Sccp(fn, call_model=call_model, stmt_values={(bb, j): I(val)}).run([(bb, {})])
+        if any(s_ in sx.exec_blocks for s_ in site_bbs):
+            continue
+        sy = Sccp(fn, call_model=call_model, stop_blocks=[bb]).run([(0, {})])
+        if any(s_ in sy.exec_blocks and s_ != bb for s_ in site_bbs):
+            continue
+        out.append((bb, j, val))
+    return out
 
 
 # ---------------------------------------------------------------------------
